@@ -80,7 +80,7 @@ Proof. eexists. eexists. eexists. vm_compute. repeat split. Qed.
 Definition fstr_case : xcase := {|
   x_body := ECmp (EFStr (PLit "n=" (PFmt (EName "x") ConvNone (PFmt (EName "s") ConvR PNil)))) (CCons CEq (EConst (VStr "zz")) CNil);
   x_texts := ["f""n={x}{s!r}"" == 'zz'"; "f""n={x}{s!r}"""; ""; ""; "'zz'"];
-  x_cond_params := []; x_kwargs := [("unused", VInt 0); ("_ARGS", VTuple [VInt 0]); ("_KWARGS", VDict [])];
+  x_cond_params := []; x_kwargs := [("unused", VInt 0); ("_ARGS", VTuple [VInt 0]); ("_KWARGS", VDict [])]; x_defaults := [];
   x_closure := [("s", VStr "a"); ("x", VInt 3)]; x_globals := [] |}.
 Theorem C06_fstring_inner_refuted :
   exists ls, model_outcome fstr_case = XViolation ls /\ line_has ls "x" = false /\
